@@ -225,6 +225,23 @@ def scenario_projects() -> List[Dict[str, Any]]:
         U("pc", "class _Priv:\n    '''p'''\n    def m(self):\n        '''m'''\nclass Gone(_Priv):\n    '''g'''\n"
                 "class Marked:\n    '''by rule'''\nclass Kid(Marked):\n    '''k'''\n"),
     ], ["HIDDEN:pc.Gone", "PRIVATE:pc.Marked"], opts={"expand": 2})
+    # C12-r3-1: rules whose only wildcard is a character set ([seq], [!seq], ranges), alone and next to exact rules
+    brk = [U("bk", "'''b'''\n", True),
+           U("bk.test_1", "'''t1'''\ndef t():\n    '''t'''\n"), U("bk.test_2", "'''t2'''\n"), U("bk.test_x", "'''tx'''\n"),
+           U("bk.core", "class ImplA:\n    '''a'''\n    def m(self):\n        '''m'''\nclass ImplB(ImplA):\n    '''b see L{ImplA}'''\n"
+                        "class ImplC(ImplA):\n    '''c'''\nclass User(ImplB):\n    '''see L{bk.test_1.t} and L{ImplC}'''\n")]
+    add("bracket-only-patterns", brk, ["HIDDEN:bk.test_[0-9]", "PRIVATE:bk.core.Impl[AB]"])
+    add("bracket-negated-and-range", brk, ["HIDDEN:bk.test_[!0-9]", "PRIVATE:bk.core.Impl[B-C]", "PUBLIC:bk.core.ImplC"])
+    add("bracket-then-exact-and-twice", brk, ["HIDDEN:bk.core.Impl[AB]", "PUBLIC:bk.core.ImplA", "PRIVATE:bk.test_[12]", "HIDDEN:bk.test_[12]"])
+    # identifiers outside ASCII: url percent-encodes them; a browser decodes the href before asking for the file
+    add("non-ascii-names", [
+        U("na", "'''pkg'''\n", True),
+        U("na.caf\u00e9", "'''module caf\u00e9'''\nclass Caf\u00e9:\n    '''c'''\n    def cr\u00e8me(self):\n        '''m'''\n"
+                          "def gr\u00fc\u00dfe():\n    '''g'''\nclass Th\u00e9(Caf\u00e9):\n    '''t'''\n"),
+    ], [], oracle_only=True)
+    # several roots, one of them named `index`: its page and the project's IndexPage share index.html
+    add("roots-named-index-and-other", [U("index", cls_src), U("other", "'''o'''\n")], [], oracle_only=True)
+    add("roots-named-nameIndex-and-other", [U("nameIndex", cls_src), U("other", "'''o'''\n")], [], oracle_only=True)
     # (a project whose only root is hidden has no visible object at all: lunr then divides by zero and the run aborts
     #  before anything is written - nothing to crawl; counted as `run-crash` when a random rule list does it)
     add("hidden-one-of-two-roots", [U("r1", "'''one see L{r2.B}'''\nclass A:\n    '''a'''\n"), U("r2", "'''two'''\nfrom r1 import A\nclass B(A):\n    '''see L{r1}'''\n")],
@@ -336,8 +353,22 @@ def random_privacy(rng, units: Sequence[Unit]) -> List[str]:
     nonroot = [n for n in names if "." in n] or names
     rules: List[str] = []
 
+    def bracket_only(n: str) -> str:
+        """a pattern whose only wildcard is a character set: it matches n (or, negated / with another set, does not)"""
+        parts = n.split(".")
+        last = parts[-1]
+        i = rng.randrange(len(last))
+        ch = last[i]
+        other = "x" if ch != "x" else "y"
+        cls = rng.choice(["[%s]" % ch, "[%s%s]" % (ch, other), "[!%s]" % other, "[!%s]" % ch,
+                          "[%s-%s]" % (ch, ch) if ch.isalnum() else "[%s]" % ch,
+                          "[a-z]" if ch.islower() else "[A-Z]" if ch.isupper() else "[0-9_]"])
+        return ".".join(parts[:-1] + [last[:i] + cls + last[i + 1:]])
+
     def pattern_for(n: str) -> str:
         parts = n.split(".")
+        if rng.random() < 0.25:
+            return bracket_only(n)
         return rng.choice([
             "*." + parts[-1], "**." + parts[-1], ".".join(parts[:-1]) + ".*", "*._*", "**._*",
             parts[0] + ".**", "*.?", ".".join(parts[:-1] + [parts[-1][:1] + "*"]), "**.[a-f]",
@@ -354,7 +385,8 @@ def random_privacy(rng, units: Sequence[Unit]) -> List[str]:
     mains = [n for n in names if n.endswith(".__main__")]
     if mains and rng.random() < 0.7:
         rules.append(rng.choice(["HIDDEN:" + mains[0], "HIDDEN:**.__main__", "PUBLIC:" + mains[0]]))
-    shape = rng.choice(["plain", "plain", "dup", "dup", "dup3", "exact-pattern", "pattern-exact", "inside-hidden"])
+    shape = rng.choice(["plain", "plain", "dup", "dup", "dup3", "exact-pattern", "pattern-exact", "inside-hidden",
+                        "bracket", "bracket", "bracket-exact"])
     extra: List[str] = []
     if shape in ("dup", "dup3"):
         n = rng.choice(nonroot)
@@ -367,6 +399,16 @@ def random_privacy(rng, units: Sequence[Unit]) -> List[str]:
         ex = "%s:%s" % (la, n)
         pt = "%s:%s" % (lb, rng.choice(["*." + parts[-1], "**." + parts[-1], ".".join(parts[:-1]) + ".*"]))
         extra = [ex, pt] if shape == "exact-pattern" else [pt, ex]
+    elif shape == "bracket":
+        # a rule whose only wildcard is [seq] / [!seq] / a range
+        extra = ["%s:%s" % (rng.choice(["HIDDEN", "PRIVATE", "HIDDEN", "PUBLIC"]), bracket_only(rng.choice(nonroot)))]
+    elif shape == "bracket-exact":
+        # the same object named exactly and through a character set, in both orders; the same bracket rule twice
+        n = rng.choice(nonroot)
+        la, lb = rng.sample(LEVELS, 2)
+        b = bracket_only(n)
+        extra = rng.choice([["%s:%s" % (la, n), "%s:%s" % (lb, b)], ["%s:%s" % (lb, b), "%s:%s" % (la, n)],
+                            ["%s:%s" % (la, b), "%s:%s" % (lb, b)]])
     elif shape == "inside-hidden":
         inner = [n for n in nonroot if n.count(".") >= 2] or nonroot
         n = rng.choice(inner)
